@@ -20,7 +20,7 @@ PARSER_OBS = ['getHTML', 'getFormattedHTML', 'getMiniHTML', 'asHTML', 'getRoot',
 ELEM_OBS = ['outerHTML', 'innerHTML', 'innerText', 'textContent', 'text', 'str', 'repr', 'getStartTag', 'getEndTag', 'toHTML',
             'getAttribute', 'hasAttribute', 'attrItems', 'attrKeys', 'attrValues', 'attrIter', 'attrLen', 'attrRepr', 'attrStr', 'attrIn', 'attrGet', 'attrSubscript', 'attrSubscriptMissing', 'attrNodeMap',
             'attributesList', 'attributesDict', 'getAttributesList', 'getAttributesDict', 'className', 'classList', 'classNames', 'hasClass',
-            'styleStr', 'styleRead', 'getStyle', 'getStyleDict', 'styleRepr', 'styleCopy', 'styleEq', 'dotRead',
+            'styleStr', 'styleRead', 'getStyle', 'getStyleDict', 'styleRepr', 'styleCopy', 'styleEq', 'styleEqEmpty', 'styleNe', 'styleEqSelf', 'dotRead',
             'children', 'childNodes', 'childBlocks', 'getChildren', 'getChildBlocks', 'firstChild', 'lastChild', 'firstElementChild',
             'lastElementChild', 'nextSibling', 'previousSibling', 'nextElementSibling', 'previousElementSibling', 'peers', 'getPeers',
             'getPeersByAttr', 'getPeersByClassName', 'getPeersByName', 'parentNode', 'parentElement', 'ownerDocument',
@@ -71,7 +71,11 @@ class C16(core.Check):
             # style / boolean / value-less attributes on some elements
             for t in toks:
                 if t[0] == 'S' and rng.random() < 0.35:
-                    t[2].append(['style', rng.choice(['color: red', 'color:red;font-weight : bold', ' display:none ; ', '']), '"'])
+                    sty = ['style', rng.choice(['color: red', 'color:red;font-weight : bold', ' display:none ; ', '']), '"']
+                    if rng.random() < 0.5:
+                        t[2].insert(0, sty)
+                    else:
+                        t[2].append(sty)
                 if t[0] == 'S' and rng.random() < 0.15:
                     t[2].append([rng.choice(['hidden', 'checked', 'data-flag']), None, None])
             other = c06.gen_doc(rng, 5)
@@ -166,7 +170,8 @@ class C16(core.Check):
                 'getAttributesList': lambda: [(k, str(v)) for k, v in e.getAttributesList()], 'getAttributesDict': lambda: {k: str(v) for k, v in e.getAttributesDict().items()},
                 'className': lambda: e.className, 'classList': lambda: list(e.classList), 'classNames': lambda: list(e.classNames), 'hasClass': lambda: e.hasClass(cls),
                 'styleStr': lambda: str(st()), 'styleRead': lambda: (st().color, st().fontWeight, st().display), 'getStyle': lambda: e.getStyle('color'),
-                'getStyleDict': lambda: e.getStyleDict(), 'styleRepr': lambda: repr(st()), 'styleCopy': lambda: str(copy.copy(st())), 'styleEq': lambda: st() == 'color: red',
+                'getStyleDict': lambda: e.getStyleDict(), 'styleRepr': lambda: repr(st()), 'styleCopy': lambda: str(copy.copy(st())), 'styleEq': lambda: st() == 'color: red', 'styleEqEmpty': lambda: st() == '', 'styleNe': lambda: (st() != '', st() != 'color: red'),
+                'styleEqSelf': lambda: st() == str(st()),
                 'dotRead': lambda: (str(e.id), str(e.name), str(e.title), str(e.hidden), str(e.tabIndex)),
                 'children': lambda: e.children, 'childNodes': lambda: [x if isinstance(x, AdvancedTag) else str(x) for x in e.childNodes],
                 'childBlocks': lambda: [x if isinstance(x, AdvancedTag) else str(x) for x in e.childBlocks], 'getChildren': lambda: e.getChildren(),
